@@ -166,8 +166,11 @@ type Env struct {
 	Cancel    context.CancelFunc
 	CancelSeq atomic.Int64
 	CallGid   int64 // goroutine that runs the directive
-	CallSeq   int64 // seq when the directive was entered
-	RetSeq    int64
+	// Solo: no other execution of the same program runs in this process at
+	// the same time (package-level state of the program may be modified)
+	Solo    bool
+	CallSeq int64 // seq when the directive was entered
+	RetSeq  int64
 
 	inflight    atomic.Int32
 	MaxInflight atomic.Int32
